@@ -26,6 +26,16 @@ Accepted shapes (anything else raises Unsupported -> the tie is reported broken,
       expressions over row, col with + and -); the last statement of <body> is `<L>.append(weight_matrix)`.
   <cond>: `or` / `and` / `not` of  NAME == "const" | NAME != "const" | NAME in [consts] | NAME not in [consts] |
       weights is None | weights is not None        (NAME = mode_weight)
+  call skeletons (-> gen_sk_config, gen_se_bodies, gen_re_bodies : lists of guarded events, Model/C12_Skeleton.v):
+      ProbabilityBasedLossFunction.set_from_standard_qtomography_option_data and, of the two fast classes,
+      _calc_extend_weight_matrix / _calc_extend_weights, set_weight_matrices / set_weights, set_func_prob_dists_from_standard_qt,
+      set_func_gradient_prob_dists_from_standard_qt.  Statement -> event: `self.<m>(...)` for the configuration methods, the
+      cache rebuild and `self._set_weights_by_mode(option.mode_weight, data)`; `super().<setter>(<param>)`;
+      `self._extend_weight_matrix = None`; `return`; `if <guard>: <such statements>` (no else; guards: is_gradient_required,
+      is_hessian_required, self.weight_matrices is None, self.weights is not None, self.prob_dists_q is not None); the
+      numerical construction of the cache (statements without self-calls that end by storing the cache attribute) is ONE event.
+      Whitelisted and not emitted: `self._matA / _vecB = np.copy(qt.calc_matA() / calc_vecB())`, `self._on_func_* = True`,
+      `self._update_on_*_true()`, `<name> = [t[1] for t in data]`.  Anything else fails.
   replace_prob_dist(prob_dist, eps=None): `eps = eps if eps is not None else <float const>` (the default is a model
       parameter, reported as gen_replace_default_eps_num / _den); `S = prob_dist.shape[0]`;
       `C = np.count_nonzero(prob_dist < eps)`; `R = np.zeros(S)`; `for index, prob in enumerate(prob_dist): if prob < eps:
@@ -391,6 +401,138 @@ def tr_replace(fdef):
     return txt
 
 
+# ------------------------------------------------------------------ call skeletons
+CALL_EVENTS = {"set_from_option": "KSetFromOption", "set_prob_dists_q": "KSetQ", "set_func_prob_dists_from_standard_qt": "KSetFunc",
+               "set_func_gradient_prob_dists_from_standard_qt": "KSetGrad", "set_func_hessian_prob_dists_from_standard_qt": "KSetHess",
+               "_set_weights_by_mode": "KSetWeightsByMode", "_calc_extend_weight_matrix": "KCalcCache", "_calc_extend_weights": "KCalcCache"}
+NEUTRAL_CALLS = {"_update_on_value_true", "_update_on_gradient_true", "_update_on_hessian_true"}
+SUPER_EVENTS = {"set_weight_matrices": "KSuperSetWeights", "set_weights": "KSuperSetWeights", "set_prob_dists_q": "KSuperSetQ"}
+CACHE_ATTRS = {"_extend_weight_matrix", "_extend_weights"}
+
+
+def self_attr(e):
+    return e.attr if isinstance(e, ast.Attribute) and isinstance(e.value, ast.Name) and e.value.id == "self" else None
+
+
+def sk_guard(t):
+    if isinstance(t, ast.Name) and t.id == "is_gradient_required":
+        return "GGrad"
+    if isinstance(t, ast.Name) and t.id == "is_hessian_required":
+        return "GHess"
+    if (isinstance(t, ast.Compare) and len(t.ops) == 1 and isinstance(t.comparators[0], ast.Constant) and t.comparators[0].value is None):
+        a = self_attr(t.left)
+        if a == "weight_matrices" and isinstance(t.ops[0], ast.Is):
+            return "GNoWeights"
+        if a == "weights" and isinstance(t.ops[0], ast.IsNot):
+            return "GHasWeights"
+        if a == "prob_dists_q" and isinstance(t.ops[0], ast.IsNot):
+            return "GHasQ"
+    fail(t, "unsupported guard in a call skeleton")
+
+
+def is_numeric_build(stmts):
+    """statements without self-calls / stores to other self attributes that end by storing a cache attribute"""
+    if not stmts:
+        return False
+    last = stmts[-1]
+    if not (isinstance(last, ast.Assign) and len(last.targets) == 1 and self_attr(last.targets[0]) in CACHE_ATTRS
+            and not (isinstance(last.value, ast.Constant) and last.value.value is None)):
+        return False
+    for st in stmts:
+        if not isinstance(st, (ast.Assign, ast.AugAssign, ast.For, ast.Expr)):
+            return False
+        for n in ast.walk(st):
+            if isinstance(n, ast.Call) and isinstance(n.func, ast.Attribute) and isinstance(n.func.value, ast.Name) and n.func.value.id == "self":
+                return False
+            if isinstance(n, ast.Attribute) and isinstance(n.ctx, ast.Store) and isinstance(n.value, ast.Name) and n.value.id == "self" and not (n is last.targets[0]):
+                return False
+            if isinstance(n, (ast.Return, ast.Raise)):
+                return False
+    return True
+
+
+def sk_stmts(stmts, guard, params, fname):
+    out = []
+    i = 0
+    while i < len(stmts):
+        st = stmts[i]
+        if isinstance(st, ast.If):
+            if guard != "GAlways" or st.orelse:
+                fail(st, "nested / else-carrying if in a call skeleton")
+            g = sk_guard(st.test)
+            if is_numeric_build(st.body):
+                out.append("(%s, KBuildCache)" % g)
+            else:
+                out += sk_stmts(st.body, g, params, fname)
+        elif isinstance(st, ast.Return):
+            if st.value is not None:
+                fail(st, "return with a value")
+            out.append("(%s, KReturn)" % guard)
+        elif isinstance(st, ast.Expr) and isinstance(st.value, ast.Call) and isinstance(st.value.func, ast.Attribute):
+            c = st.value; f = c.func
+            if isinstance(f.value, ast.Name) and f.value.id == "self":
+                if f.attr in NEUTRAL_CALLS and not c.args and not c.keywords:
+                    pass
+                elif f.attr in CALL_EVENTS and not c.keywords:
+                    if f.attr == "_set_weights_by_mode":
+                        ok = (len(c.args) == 2 and isinstance(c.args[0], ast.Attribute) and c.args[0].attr == "mode_weight"
+                              and isinstance(c.args[0].value, ast.Name) and c.args[0].value.id == "option"
+                              and isinstance(c.args[1], ast.Name) and c.args[1].id == "data")
+                        if not ok:
+                            fail(c, "_set_weights_by_mode must be called with (option.mode_weight, data)")
+                    elif f.attr in ("_calc_extend_weight_matrix", "_calc_extend_weights"):
+                        if c.args:
+                            fail(c, "unexpected arguments")
+                    elif not (len(c.args) == 1 and isinstance(c.args[0], ast.Name) and c.args[0].id in params):
+                        fail(c, "unexpected argument of self.%s" % f.attr)
+                    out.append("(%s, %s)" % (guard, CALL_EVENTS[f.attr]))
+                else:
+                    fail(c, "unsupported call self.%s in a call skeleton" % f.attr)
+            elif (isinstance(f.value, ast.Call) and isinstance(f.value.func, ast.Name) and f.value.func.id == "super" and not f.value.args
+                  and f.attr in SUPER_EVENTS and f.attr == fname and len(c.args) == 1 and isinstance(c.args[0], ast.Name) and c.args[0].id in params):
+                out.append("(%s, %s)" % (guard, SUPER_EVENTS[f.attr]))
+            else:
+                fail(c, "unsupported call in a call skeleton")
+        elif isinstance(st, ast.Assign) and len(st.targets) == 1:
+            a = self_attr(st.targets[0])
+            if a in CACHE_ATTRS and isinstance(st.value, ast.Constant) and st.value.value is None:
+                out.append("(%s, KClearCache)" % guard)
+            elif a is not None and a.startswith("_on_func_") and isinstance(st.value, ast.Constant) and st.value.value is True:
+                pass
+            elif (a in ("_matA", "_vecB") and isinstance(st.value, ast.Call) and isinstance(st.value.func, ast.Attribute) and st.value.func.attr == "copy"
+                  and len(st.value.args) == 1 and isinstance(st.value.args[0], ast.Call) and isinstance(st.value.args[0].func, ast.Attribute)
+                  and st.value.args[0].func.attr == {"_matA": "calc_matA", "_vecB": "calc_vecB"}[a]):
+                pass
+            elif (isinstance(st.targets[0], ast.Name) and isinstance(st.value, ast.ListComp) and len(st.value.generators) == 1
+                  and isinstance(st.value.generators[0].iter, ast.Name) and st.value.generators[0].iter.id == "data" and not st.value.generators[0].ifs
+                  and isinstance(st.value.elt, ast.Subscript) and isinstance(st.value.elt.slice, ast.Constant) and st.value.elt.slice.value == 1):
+                params = params | {st.targets[0].id}
+            elif guard == "GAlways" and is_numeric_build(stmts[i:]):
+                out.append("(GAlways, KBuildCache)")
+                return out
+            else:
+                fail(st, "unsupported assignment in a call skeleton")
+        elif guard == "GAlways" and is_numeric_build(stmts[i:]):
+            out.append("(GAlways, KBuildCache)")
+            return out
+        else:
+            fail(st, "unsupported statement in a call skeleton")
+        i += 1
+    return out
+
+
+def tr_skeleton(cls, name):
+    f = find_def(cls, name)
+    params = set(argnames(f)) - {"self"}
+    return "[" + "; ".join(sk_stmts(body_wo_doc(f), "GAlways", params, name)) + "]"
+
+
+def tr_bodies(cls, coq_name, calc, setter):
+    return ("Definition %s : se_bodies :=\n  {| sb_calc := %s;\n     sb_setter := %s;\n     sb_func := %s;\n     sb_grad := %s |}.\n"
+            % (coq_name, tr_skeleton(cls, calc), tr_skeleton(cls, setter), tr_skeleton(cls, "set_func_prob_dists_from_standard_qt"),
+               tr_skeleton(cls, "set_func_gradient_prob_dists_from_standard_qt")))
+
+
 def main(repo, out):
     def parse(rel):
         return ast.parse(open(os.path.join(repo, rel), encoding="utf-8").read())
@@ -401,7 +543,7 @@ def main(repo, out):
     parts = ["(* GENERATED by gen/c12_py2coq.py from the current quara source - do not edit *)",
              "From Coq Require Import String List Bool ZArith.",
              "From QV.Core Require Import OF Sums Mat.",
-             "From QV.Model Require Import C12_Loss C12_Dispatch.",
+             "From QV.Model Require Import C12_Loss C12_Dispatch C12_Skeleton.",
              "Import ListNotations.", "Open Scope string_scope.", ""]
     parts.append(tr_option(find_class(se, "WeightedProbabilityBasedSquaredErrorOption"), "gen_se_option"))
     parts.append(tr_option(find_class(re_, "WeightedRelativeEntropyOption"), "gen_re_option"))
@@ -412,6 +554,20 @@ def main(repo, out):
                  "Definition gen_place_cols (row col : Z) : Z := %s%%Z.\n" % (pl.special, pl.rows, pl.cols))
     parts.append(tr_dispatch(find_class(re_, "WeightedRelativeEntropy"), "gen_re_dispatch", "set_weights", pl_re))
     parts.append(tr_replace(find_def(mu, "replace_prob_dist")))
+    pb = parse("quara/loss_function/probability_based_loss_function.py")
+    fse = parse("quara/loss_function/standard_qtomography_based_weighted_probability_based_squared_error.py")
+    fre = parse("quara/loss_function/standard_qtomography_based_weighted_relative_entropy.py")
+    parts.append("Definition gen_sk_config : list ev :=\n  %s.\n"
+                 % tr_skeleton(find_class(pb, "ProbabilityBasedLossFunction"), "set_from_standard_qtomography_option_data"))
+    parts.append(tr_bodies(find_class(fse, "StandardQTomographyBasedWeightedProbabilityBasedSquaredError"), "gen_se_bodies",
+                           "_calc_extend_weight_matrix", "set_weight_matrices"))
+    parts.append(tr_bodies(find_class(fre, "StandardQTomographyBasedWeightedRelativeEntropy"), "gen_re_bodies",
+                           "_calc_extend_weights", "set_weights"))
+    # the fast classes must not override the configuration entry point or the dispatcher
+    for cls_ in (find_class(fse, "StandardQTomographyBasedWeightedProbabilityBasedSquaredError"), find_class(fre, "StandardQTomographyBasedWeightedRelativeEntropy")):
+        for n in cls_.body:
+            if isinstance(n, ast.FunctionDef) and n.name in ("set_from_standard_qtomography_option_data", "_set_weights_by_mode", "set_from_option"):
+                raise Unsupported("%s overrides %s" % (cls_.name, n.name))
     open(out, "w").write("\n".join(parts))
 
 
